@@ -1193,6 +1193,9 @@ public:
 
     // Assign ghost variables to ref
     ghost_variables_t ref_gvars = get_or_insert_gvars(ref);
+    // ref is redefined: what was known about its previous address
+    // (e.g. that it was null) does not hold for the new object
+    ref_gvars.forget(m_base_dom);
 
     // initialize ghost variables
     if (ref_gvars.has_offset_and_size()) {
